@@ -143,6 +143,27 @@ async def step(ctx, ios, reqs: dict, samples=()):
     return results, [to_py(x) for x in res[n:]]
 
 
+def fold_second(name: str, reqs: dict, results: dict):
+    """Two independent callers `<name>` and `<name>_b` of one EXCLUSIVE method: at most one may be served per cycle, and
+    when both request, the outcome must be that of a single request.  Folds the pair into `<name>` (the served one, else
+    the first requester) and removes `<name>_b`; returns a message if exclusivity is violated."""
+    a, b = name, name + "_b"
+    for c in (a, b):
+        if results.get(c) is not None and c not in reqs:
+            return f"{name} ran for a caller that did not request it"
+    req2 = [c for c in (a, b) if c in reqs]
+    acc2 = [c for c in req2 if results[c] is not None]
+    if len(acc2) > 1:
+        return f"both callers of {name} were served in one cycle (exclusive method)"
+    if req2:
+        win = acc2[0] if acc2 else req2[0]
+        reqs[a] = reqs[win]
+        results[a] = results[win]
+    reqs.pop(b, None)
+    results.pop(b, None)
+    return None
+
+
 # ---------------------------------------------------------------------------------------------- strategies
 
 
